@@ -2,7 +2,8 @@
 
 Decides: (R02.1) the decoder's typestate table - for every state, the bytes an arm consumes equal the
 counter every incoming transition (and the constructor) sets for that state; (R02.2) nothing is consumed
-or written before the `buffered >= counter` guard, and the insufficient-data exit is effect-free;
+or written before the `buffered >= counter` guard, the insufficient-data exit is effect-free, the decoder never stalls
+with enough bytes buffered, and it never assigns to the read buffer itself (only consumes from its front);
 (R02.3) the partially assembled multipart message lives in a field of the codec at every exit of decode;
 (R02.4) one framing site, no re-wrapping of the transport, the handshake's framed reader is the one that
 is moved into the socket. Does NOT decide equality of decoded sequences over all partitions."""
@@ -110,6 +111,12 @@ def analyse_decoder(f, rep, dec, self_ty):
                         consumed.append(strip_casts(ev.args[1]))
                     elif n in ("split", "clear", "take", "copy_to_bytes", "get_uint", "get_int"):
                         consumed.append(("unk", n))
+                # the read buffer is only ever consumed from the front: assigning to it (`*src = BytesMut::new()`, mem::take/replace/swap)
+                # throws away whatever arrived in the same read after the bytes just consumed
+                if (ev.kind == "store" and (ev.target == ("deref", src) or (ev.place or "").startswith("(*_2)") and ev.fnpath == dec.path)) or \
+                        (ev.kind == "call" and short(ev.name) in ("take", "replace", "swap") and "mem::" in ev.name and ev.args and src in [a for a in ev.args]):
+                    rep.bad("R02.2", "R02.2|%s|buffer-replaced|%s" % (dec.path, v["name"]),
+                            "the decoder assigns to the read buffer itself in state %s: bytes that arrived in the same read after the consumed ones are dropped" % v["name"], dec.loc(ev.bb))
                 if ev.kind == "store" and ev.extra and ev.extra.get("k") == "assign" and ev.extra["place"]["p"] and ev.extra["place"]["p"][0]["k"] == "deref" and \
                         len(ev.extra["place"]["p"]) >= 2 and ev.extra["place"]["p"][1]["k"] == "field" and ev.extra["place"]["p"][1].get("name") in (sname, cname, aname):
                     stores.append(ev)
@@ -177,6 +184,8 @@ def analyse_decoder(f, rep, dec, self_ty):
             elif p.end == "stop":
                 transitions.setdefault(key_state, set()).add(norm_counter(c_out[-1].value if c_out else W))
     rep.count("decoder_single_step_paths", npaths)
+    if not any("|buffer-replaced|" in o.key for o in rep.obls):
+        rep.ok("R02.2", "R02.2|%s|buffer-only-consumed" % dec.path, "the decoder never assigns to the read buffer itself: it only consumes from its front (%d single-step paths)" % npaths, dec.loc())
     # constructor
     ctor = [b for b in f.bodies if b.kind == "AssocFn" and (b.j.get("impl_self") or "").endswith(self_ty.split("::")[-1]) and b.j.get("impl_trait") is None]
     init = None
@@ -368,7 +377,9 @@ def check_framing_sites(f, rep):
                     if st["k"] == "assign" and st["rv"]["k"] == "aggregate":
                         for o in st["rv"]["ops"]:
                             if o["k"] == "move" and "FramedRead" in o["place"].get("ty", ""):
-                                sinks.append("aggregate:%s" % (st["rv"].get("adt") or st["rv"].get("def") or st["rv"]["ak"]))
+                                # a struct (Peer { .. }) or the captures of a spawned task own it; a bare tuple / array is just a temporary
+                                kind = "aggregate" if st["rv"]["ak"] in ("adt", "closure", "coroutine") else "temporary"
+                                sinks.append("%s:%s" % (kind, st["rv"].get("adt") or st["rv"].get("def") or st["rv"]["ak"]))
                 t = blk["term"]
                 if t["k"] == "call" and t["func"].get("fn"):
                     fn = t["func"]["fn"]
